@@ -1089,7 +1089,22 @@ func (e *Engine) verifyFunction(key string, extra *FuncSpec) (res *FuncResult) {
 				return env
 			}
 			for _, ap := range spec.ExitApplies {
-				e.applyLemma(fx, ap, mkEnv(true), rp.st, path+"/exit")
+				if e.onlySafe {
+					break // exit lemmas serve the functional postconditions only
+				}
+				// a return point that precedes the declaration of a local the
+				// clause mentions is not a point the clause speaks about
+				func() {
+					defer func() {
+						if r := recover(); r != nil {
+							if u, ok := r.(unsupported); ok && strings.Contains(u.msg, "unknown name") {
+								return
+							}
+							panic(r)
+						}
+					}()
+					e.applyLemma(fx, ap, mkEnv(true), rp.st, path+"/exit")
+				}()
 			}
 			for i, c := range spec.Ensures {
 				if !e.useClause(c) {
@@ -1409,6 +1424,10 @@ func (e *Engine) verifyLemma(name string) (res *FuncResult) {
 	}
 	fx := e.newFnCtx(nil)
 	fx.lemmaName = "lemma:" + name
+	fx.reveal = map[string]bool{}
+	for _, r := range lem.Reveal {
+		fx.reveal[r] = true
+	}
 	res.Ctx = fx
 	defer func() {
 		res.Seconds = time.Since(start).Seconds()
@@ -1489,7 +1508,13 @@ func (e *Engine) verifyLemma(name string) (res *FuncResult) {
 		fx.assumes = append(fx.assumes, fx.hyp(func() T { return env.eval(r.E).asBool() }))
 	}
 	for _, ap := range lem.Applies {
-		call := ap.E.(*ECall)
+		ex := ap.E
+		when := T("true")
+		if c, ok := ex.(*ECond); ok && c.B == nil {
+			when = env.eval(c.C).asBool()
+			ex = c.A
+		}
+		call := ex.(*ECall)
 		if call.Fn == name {
 			unsupp("lemma %s applies itself (use 'induction on')", name)
 		}
@@ -1498,7 +1523,7 @@ func (e *Engine) verifyLemma(name string) (res *FuncResult) {
 			env.eval(call)
 			continue
 		}
-		fx.assumes = append(fx.assumes, e.lemmaInstance(fx, call.Fn, call.Args, env))
+		fx.assumes = append(fx.assumes, imp(when, e.lemmaInstance(fx, call.Fn, call.Args, env)))
 	}
 	// calls by contract: each starts from the same symbolic pre-state, so the
 	// lemma relates independent runs of the function(s) (self-composition)
